@@ -39,24 +39,29 @@ def poaRemoveBranch (s : App) (val : Val) (currentPower : Int) : Except Err App 
 
 def absDiff (a b : Int) : Nat := (a - b).natAbs
 
+/-- the assignment branch of `SetPOAPower`: pre-write the last power, *add* an index entry at the new
+    power, remember the operator for the next BeginBlocker -/
+def poaAssignBranch (s : App) (val : Val) (newPower : Int) : App :=
+  let s := s.setLast val.op newPower
+  let s := s.setIdx val
+  { s with updated := sinsert val.op s.updated }
+
+def poaBranch (s : App) (val : Val) (newShares currentPower newPower : Int) : Except Err App :=
+  if newShares = 0 && currentPower > 0 then s.poaRemoveBranch val currentPower
+  else .ok (s.poaAssignBranch val newPower)
+
+/-- `IncreaseAbsoluteChangedInBlockPower` (unsigned 64-bit addition) -/
+def bumpAbs (s : App) (d : Nat) : App := { s with absCh := (s.absCh + d) % U64 }
+
 /-- `SetPOAPower(op, newShares)` once the validator record was found -/
 def setPOAPowerVal (s : App) (v : Val) (newShares : Int) : Except Err App :=
-  let newPower := powerOfInt newShares
-  let currentPower := s.lastPower v.op
-  if newPower = currentPower then .error Err.plain
+  if powerOfInt newShares = s.lastPower v.op then .error Err.plain
   else
-    let val := { v with tokens := toUInt64 newShares }
-    let r : Except Err App :=
-      if newShares = 0 && currentPower > 0 then s.poaRemoveBranch val currentPower
-      else
-        let s := s.setLast val.op newPower
-        let s := s.setIdx val
-        .ok { s with updated := sinsert val.op s.updated }
-    match r with
+    match s.poaBranch { v with tokens := toUInt64 newShares } newShares (s.lastPower v.op) (powerOfInt newShares) with
     | .error e => .error e
-    | .ok s =>
-      let s := { s with absCh := (s.absCh + absDiff newPower currentPower) % U64 }
-      .ok (s.updateValidatorSet newShares newPower val)
+    | .ok s1 =>
+      .ok ((s1.bumpAbs (absDiff (powerOfInt newShares) (s.lastPower v.op))).updateValidatorSet newShares (powerOfInt newShares)
+            { v with tokens := toUInt64 newShares })
 
 /-- `SetPOAPower`; `target = none` is an address that does not decode -/
 def setPOAPower (s : App) (target : Option Nat) (newShares : Int) : Except Err App :=
